@@ -193,6 +193,8 @@ type sys struct {
 	// removed: ids the agent deregistered locally and has not re-added since
 	removedSvc map[string]bool
 	removedChk map[string]bool
+	// ownedTags: tags the servers set on a service registered with EnableTagOverride (the agent must adopt them, never revert them)
+	ownedTags map[string][]string
 }
 
 func newSys() *sys {
@@ -204,7 +206,7 @@ func newSys() *sys {
 		TaggedAddresses: map[string]string{"lan": "10.0.0.1"}}, hclog.NewNullLogger(), tok)
 	l.Delegate = d
 	l.TriggerSyncChanges = func() {}
-	return &sys{l: l, d: d, removedSvc: map[string]bool{}, removedChk: map[string]bool{}}
+	return &sys{l: l, d: d, removedSvc: map[string]bool{}, removedChk: map[string]bool{}, ownedTags: map[string][]string{}}
 }
 
 func svc(id string, port int) *structs.NodeService {
@@ -235,6 +237,7 @@ func (s *sys) addSvc(ns *structs.NodeService, tok string, checks ...*structs.Hea
 		return
 	}
 	delete(s.removedSvc, ns.ID)
+	delete(s.ownedTags, ns.ID)
 	for _, c := range checks {
 		delete(s.removedChk, string(c.CheckID))
 	}
@@ -251,6 +254,7 @@ func (s *sys) removeSvc(id string) {
 		return
 	}
 	s.removedSvc[id] = true
+	delete(s.ownedTags, id)
 	for _, k := range ids {
 		s.removedChk[string(k.ID)] = true
 	}
@@ -299,6 +303,27 @@ func alphabet() []op {
 		}},
 		{name: "local update c1 critical", run: func(s *sys) { s.l.UpdateCheck(cid("c1"), "critical", "boom") }},
 		{name: "local update c2 warning", run: func(s *sys) { s.l.UpdateCheck(cid("c2"), "warning", "hmm") }},
+		{name: "local add s3 (tag override) with check c5", run: func(s *sys) {
+			ns := svc("s3", 70)
+			ns.EnableTagOverride = true
+			s.addSvc(ns, "", chk("c5", "s3", "passing"))
+		}},
+		{name: "drift: servers retag s3", drift: true, run: func(s *sys) {
+			_, cur, _ := s.d.w.Store().NodeService(nil, node, "s3", structs.DefaultEnterpriseMetaInDefaultPartition(), "")
+			if cur == nil || !cur.EnableTagOverride {
+				return // only a registered tag-override service has server-owned tags
+			}
+			r := regReq()
+			r.SkipNodeUpdate = true
+			ns := svc("s3", 70)
+			ns.EnableTagOverride = true
+			ns.Tags = []string{"set-by-servers"}
+			r.Service = ns
+			s.apply(structs.RegisterRequestType, &r)
+			if _, ok := s.l.AllServices()[sid("s3")]; ok {
+				s.ownedTags["s3"] = []string{"set-by-servers"}
+			}
+		}},
 		// external drift of the catalog
 		{name: "drift: foreign service s9 appears", drift: true, run: func(s *sys) {
 			r := regReq()
@@ -344,6 +369,7 @@ func alphabet() []op {
 			s.apply(structs.RegisterRequestType, &r)
 		}},
 		{name: "drift: node removed from catalog", drift: true, run: func(s *sys) {
+			s.ownedTags = map[string][]string{} // the rows that carried them are gone
 			s.apply(structs.DeregisterRequestType, &structs.DeregisterRequest{Datacenter: dcName, Node: node})
 		}},
 		{name: "drift: node meta altered", drift: true, run: func(s *sys) {
@@ -429,7 +455,7 @@ type scenario struct {
 func (sc scenario) describe(alpha []op) string {
 	var parts []string
 	if sc.base {
-		parts = append(parts, "base(s1+c1, c2 registered and synced)")
+		parts = append(parts, "base(s1+c1, c2, s3[tag override]+c5 registered and synced)")
 	} else {
 		parts = append(parts, "empty")
 	}
@@ -471,6 +497,9 @@ func runScenario(sc scenario, alpha []op) result {
 	if sc.base {
 		s.addSvc(svc("s1", 80), "", chk("c1", "s1", "passing"))
 		s.l.AddCheck(chk("c2", "", "passing"), "", false)
+		to := svc("s3", 70)
+		to.EnableTagOverride = true
+		s.addSvc(to, "", chk("c5", "s3", "passing"))
 		if err := s.l.SyncFull(); err != nil {
 			panic("base sync: " + err.Error())
 		}
@@ -600,6 +629,58 @@ func runScenario(sc scenario, alpha []op) result {
 	_, n, _ := s.d.w.Store().GetNode(node, nil, "")
 	if n == nil || string(n.ID) != nodeID {
 		res.viol = append(res.viol, [2]string{"C16:node-not-registered-after-full-sync", "node row missing or with a different ID"})
+	}
+	if len(res.viol) > 0 {
+		return res
+	}
+	// ---- after convergence: every check changes status and is synced on its own (a partial sync sends the
+	// service record along), then another full sync. The catalog must still equal the local state and the
+	// tags the servers own must be what the servers set.
+	owned := func(when string) {
+		for id, tags := range s.ownedTags {
+			_, cur, _ := s.d.w.Store().NodeService(nil, node, id, structs.DefaultEnterpriseMetaInDefaultPartition(), "")
+			if cur != nil && fmt.Sprint(cur.Tags) != fmt.Sprint(tags) {
+				res.viol = append(res.viol, [2]string{"C16:server-owned-tags-reverted-by-the-agent", fmt.Sprintf("%s: service %s has EnableTagOverride and the servers set tags %v, the catalog now holds %v", when, id, tags, cur.Tags)})
+			}
+		}
+	}
+	owned("after the clean full sync")
+	var cids []string
+	for id := range s.l.AllChecks() {
+		cids = append(cids, string(id.ID))
+	}
+	sort.Strings(cids)
+	for _, id := range cids {
+		c := s.l.Check(cid(id))
+		if c == nil {
+			continue
+		}
+		st := "critical"
+		if c.Status == "critical" {
+			st = "passing"
+		}
+		s.l.UpdateCheck(cid(id), st, "flipped after convergence")
+	}
+	if err := s.l.SyncChanges(); err != nil {
+		res.viol = append(res.viol, [2]string{"C16:clean-partial-sync-fails", err.Error()})
+		return res
+	}
+	owned("after a partial sync of the checks")
+	csvc, cchk = s.catalog()
+	lsvc, lchk = s.localView()
+	if d := append(mapDiff("service", lsvc, csvc), mapDiff("check", lchk, cchk)...); len(d) > 0 {
+		res.viol = append(res.viol, [2]string{"C16:not-converged-after-partial-sync-of-checks:" + classify(d), strings.Join(d, "; ")})
+		return res
+	}
+	if err := s.l.SyncFull(); err != nil {
+		res.viol = append(res.viol, [2]string{"C16:clean-full-sync-fails", "second clean SyncFull returned " + err.Error()})
+		return res
+	}
+	owned("after the second full sync")
+	csvc, cchk = s.catalog()
+	lsvc, lchk = s.localView()
+	if d := append(mapDiff("service", lsvc, csvc), mapDiff("check", lchk, cchk)...); len(d) > 0 {
+		res.viol = append(res.viol, [2]string{"C16:not-converged-after-second-full-sync:" + classify(d), strings.Join(d, "; ")})
 	}
 	return res
 }
